@@ -10,28 +10,40 @@ RULE = ("every case encodes with SetTrackEncodedProperties(true) through the Enc
         "produced stream. (a) random point clouds and meshes of all topology families x all methods, sub-methods, speeds "
         "0..10, split-on-seams, with the Lean model decoding the produced stream of every method (correspondence); (b) dedicated families, "
         "implementation only: vertex fans (interior and boundary centre, 2..8 triangles) and small grids with 2..3 "
-        "non-position attributes carrying independent random seams (seams at the centre, seams caused by a split ring "
+        "non-position attributes carrying independent random seams (a quarter with the attribute order permuted, so that POSITION "
+        "is not attribute 0; seams at the centre, seams caused by a split ring "
         "vertex only, seams in a later attribute only), bow-ties / k faces on an edge (non-manifold vertices and edges), "
         "degenerate and duplicate faces, isolated points, random sub-patches of small grids (many topology-split "
         "symbols, position-only and single-connectivity decoding), tori / genus-2 surfaces; (c) meshes whose points are "
         "NOT deduplicated (a vertex referenced through several point ids with identical value indices); the replays of the "
-        "two defects this check found (repaired by 85f04a5 and 49d6567) run first as regression cases.")
-THEOREM_BACKED = ('seq_counts_mesh_connectivity / seq_counts_mesh_stream / seq_counts_pc_stream (a 2.2 header + raw-index '
-                  'connectivity / point count followed by any bytes decodes to exactly the counts the sequential encoders '
-                  'report), seq_counts (every accepted sequential stream of every bitstream version: one value per point, '
-                  'identity maps, faces < points), seq_counts_independent_of_skip; eb_point_count_fan / eb_point_count_mesh'
-                  " / dec_points_* (the encoder's seam-sector formula AS REPAIRED by 49d6567 == the decoder's point "
-                  "creation on an abstract fan, under H2 'seam flags sound' only — no deduplication hypothesis), "
-                  'eb_point_count_fan_unsound_flag_witness (H2 cannot be dropped), the pre-fix formula with '
-                  'eb_point_count_fan_prefix_agrees and its non-deduplicated witnesses; cited: C01.seq_counts, '
-                  'C01Kd.pointcloud_kd_roundtrip (counts on encoder-model outputs), C01Eb.eb_encoded_counts_partial')
-CORRESPONDENCE_ONLY = ('Edgebreaker: the fan abstraction is not derived from the corner-table model; the position-only branch '
-                       'and ComputeNumberOfEncodedFaces are covered by the oracle on the real outputs only (and by the count '
-                       'comparison of the ebenc cases in C01); the dedicated families of this check run on the implementation '
-                       'only (model:none)')
-EXPLANATION = ('the fan theorem is about an abstract model of the two counting procedures (one vertex at a time); it is '
-               'tied to the code only through the oracle on generated fans; the streams of the random cases are also '
-               'decoded by the Lean model (all methods)')
+        "two defects this check found (repaired by 85f04a5 and 49d6567) run first as regression cases."
+        ' (d) ONE draco::Encoder object used for two geometries in a row (op encdech: mesh then point cloud, '
+        'point cloud then mesh, ...): the counts reported after the second encode are those of the second '
+        'geometry; a point cloud must report 0 faces.')
+THEOREM_BACKED = ('DracoProps.C09: seq_counts_mesh_connectivity / seq_counts_mesh_stream / seq_counts_pc_stream (a 2.2 '
+                  'header + raw-index connectivity / point count followed by any bytes decodes to exactly the counts the '
+                  'sequential encoders report), seq_counts (every accepted sequential stream of every bitstream version: '
+                  'one value per point, identity maps, faces < points), seq_counts_independent_of_skip; eb_point_count_fan '
+                  "/ eb_point_count_mesh / dec_points_* (the encoder's seam-sector formula AS REPAIRED by 49d6567 == the "
+                  "decoder's point creation on an abstract fan, under H2 'seam flags sound' only — no deduplication "
+                  'hypothesis), eb_point_count_fan_unsound_flag_witness (H2 cannot be dropped), the pre-fix formula with '
+                  'eb_point_count_fan_prefix_agrees and its non-deduplicated witnesses. DracoProps.C09Eb (corner-table '
+                  "models): eb_decoded_points_fans (the decoder's point count = sum of the per-fan counts, the fans read "
+                  'off its corner table, under the table invariants APHyp), eb_decoded_points_encoder_formula (= sum of the'
+                  " encoder's per-vertex formula over the same fans, under H2), eb_points_refine_vertices, "
+                  'eb_encoded_points_fans (ComputeNumberOfEncodedPoints = (vertices - isolated) + sum over the fans of the '
+                  "encoder's table, given ClosedOK). Cited: C01.seq_counts, C01Kd.pointcloud_kd_roundtrip (counts on "
+                  'encoder-model outputs), C01Eb.eb_encoded_counts_partial; proof library only: '
+                  'EbCountsIso.eb_encoded_points_eq_decoded, EbEncCounts.encodeConnectivity_faces')
+CORRESPONDENCE_ONLY = ("Edgebreaker: that the encoder's fans are the images of the decoder's (isomorphism of the tables) and "
+                       'that the traversal reaches every non-degenerate face (processed.size = num_faces - NumDegeneratedFaces, '
+                       'i.e. ComputeNumberOfEncodedFaces) are evaluated per ebenc case of C01 (iso-ok, coverage, counts-ok) and '
+                       'covered here by the oracle on the real outputs; the dedicated families of this check run on the '
+                       'implementation only (model:none)')
+EXPLANATION = ('the per-fan theorem is about an abstract model of the two counting procedures (one vertex at a time); '
+               "C09Eb derives both sides' totals from their corner-table models as sums over fans read off the tables; "
+               'the link between the two tables is tied to the code through the oracle (reported == decoded) on '
+               'generated meshes; the streams of the random cases are also decoded by the Lean model (all methods)')
 TIMEOUT = 900
 CHECKS = {"counts"}
 
@@ -221,6 +233,29 @@ def generate(rng, tier):
             toks = ["expert=1"] + toks + [f"submethod={rng.choice([0, 2])}"]
             info["expert"] = True
         cases.append(finish(g, toks, info, ("gen:split-rich-patches",), False))
+    # ---- (d) one draco::Encoder object used for two geometries in a row (mesh then point cloud, point cloud then
+    #      mesh, …): the counts reported after the second encode are those of the second geometry
+    for _ in range(80 * mul):
+        def one(as_mesh):
+            if as_mesh:
+                nv, f = topo2.topo_fan(rng) if rng.random() < 0.5 else G.topo_grid(rng, rng.randint(1, 3), rng.randint(1, 3))
+                return seam_mesh(rng, ("fan", nv, topo2._finish(rng, f)), natt=rng.randint(0, 2))
+            return G.rand_point_cloud(rng, 20)
+        ga, gb = one(rng.random() < 0.6), one(rng.random() < 0.5)
+        if ga.is_mesh == gb.is_mesh and rng.random() < 0.7:
+            gb = one(not ga.is_mesh)
+        if gb.num_points == 0 or ga.num_points == 0:
+            continue
+        ta = [f"method={rng.randint(0, 1)}", f"speed={rng.randint(0, 10)},{rng.randint(0, 10)}"] + (["track=1"] if rng.random() < 0.7 else [])
+        tb = [f"method={rng.randint(0, 1)}", f"speed={rng.randint(0, 10)},{rng.randint(0, 10)}"]
+        if not gb.is_mesh and tb[0] == "method=1":
+            tb.append("q0=10")
+        if not ga.is_mesh and ta[0] == "method=1":
+            ta.append("q0=10")
+        info = {"expert": False, "req": {}, "track": True, "skip": None}
+        c = finish(gb, tb, info, ("gen:encoder-object-history", "first:" + ("mesh" if ga.is_mesh else "pc"), "second:" + ("mesh" if gb.is_mesh else "pc")), False)
+        c.op = "encdech " + " ".join(ta) + " -- " + ga.to_text() + " ;; " + c.op[len("encdec "):]
+        cases.append(c)
     # ---- (c) non-deduplicated points
     for _ in range(60 * mul):
         nv, f = topo2.topo_fan(rng) if rng.random() < 0.6 else G.topo_grid(rng, 2, 2)
